@@ -630,6 +630,12 @@ func (st *State) typeAssert(fr *Frame, x *ssa.TypeAssert) bool {
 			}
 		}
 	}
+	if _, isPtr := x.AssertedType.Underlying().(*types.Pointer); isPtr && !toIface {
+		// an interface never holds a typed nil pointer here (protobuf oneof wrappers, errors): assumed
+		if rt, ok2 := res.(*Term); ok2 {
+			st.assume(Implies(ok, Neq(rt, IntLit(0))))
+		}
+	}
 	if x.CommaOk {
 		fr.vals[x] = &TupleV{[]SVal{res, ok}}
 		return false
